@@ -15,8 +15,10 @@ LEVEL_TEXT = 'Lean theorems about the index state machine, every history: the ha
 LEVEL_NOTE = 'On nested masters the idempotence law is proved for edits that name no .multiple parameter; elsewhere validated by correspondence. Known finding D37. The style/menu half of the index is not modelled.'
 TECHNIQUE = 'Lean 4 invariant proofs over operation histories of a state machine (refinement; path index included) + differential correspondence'
 RULE = ("fully typed masters x histories of 1-25 operations over {update(text[, only_scope]), merge_phil(string / object[, only_scope]), merge_param_file, update_from_python, "
-        "push_state, pop_state, set_state, get_python_object} with edit texts generated from the master; non-trivial = the "
-        "history contains an edit and a state operation; distinct = (master, history)")
+        "push_state, pop_state, set_state, get_python_object} with edit texts generated from the master; plus a stream of DEEP "
+        "histories (33-100 explicit push_state calls and further implicit pushes of update_from_python with edits in between "
+        "and next to no pops, set_state with the handles push_state returned, then a complete unwind down to the empty stack "
+        "and one pop beyond); non-trivial = the history contains an edit and a state operation; distinct = (master, history)")
 ASSUMPTIONS = ["values compared on active parameters"]
 
 
@@ -68,6 +70,69 @@ def gen_history(rng, tree, scopes=()):
             ops.append(["from_python_obj", rng.randrange(10 ** 6)])   # a separately extracted, edited object
         else:
             ops.append(["get"])
+    return ops
+
+
+def gen_edit(rng, tree, scopes=()):
+    """one edit operation of gen_history (None when the source generator produced no text)"""
+    t = mgen.SourceGen(rng, valid_only=rng.random() < 0.85, unknown=False, disabled=False).text(tree)
+    if not t:
+        return None
+    via = rng.choice(["update", "update", "string", "object", "file"])
+    op = ["update", t, via]
+    if via != "file" and rng.random() < 0.2:
+        op.append(rng.choice(list(scopes) + ["no_such_scope"]) if scopes and rng.random() < 0.9 else "no_such_scope")
+    return op
+
+
+def gen_deep_history(rng, tree, scopes=(), lo=33, hi=100):
+    """a DEEP state stack: a long editing session in which a state is saved before (almost) every step -- `lo`..`hi`
+    explicit push_state calls plus the implicit pushes of update_from_python, edits in between, next to no pops -- then
+    set_state with handles of saved states from every region of the stack (bottom, middle, top), then the complete
+    unwind: one pop per outstanding push down to the empty stack (gets and a few set_state on the way) and one pop more
+    (which must refuse).  The property quantifies over all finite histories; nothing bounds the number of outstanding
+    pushes."""
+    ops = []
+    n_push = rng.choice([lo, lo + 1, 40, 48, 64, 65, 80, hi, rng.randint(lo, hi), rng.randint(lo, hi)])
+    n_push = max(lo, min(hi, n_push))
+    explicit = implicit = 0
+    while explicit < n_push:
+        k = rng.random()
+        if k < 0.55:
+            ops.append(["push"])
+            explicit += 1
+        elif k < 0.80:
+            op = gen_edit(rng, tree, scopes)
+            if op:
+                ops.append(op)
+        elif k < 0.86:
+            ops.append(["from_python"])
+            implicit += 1
+        elif k < 0.92:
+            ops.append(["from_python_obj", rng.randrange(10 ** 6)])
+            implicit += 1
+        elif k < 0.98:
+            ops.append(["get"])
+        elif k < 0.99:
+            ops.append(["copy"])
+        elif explicit > 0:
+            ops.append(["pop"])          # rare: the run of pushes is long, not necessarily unbroken
+            explicit -= 1                # (an upper bound of what is outstanding is enough here)
+    depth = explicit                     # handles 0 .. depth-1 certainly address outstanding pushes
+    for k in {0, 1, depth // 2, depth - 2, depth - 1, rng.randrange(depth), rng.randrange(depth)}:
+        if 0 <= k < depth:
+            ops.append(["set", k])
+            if rng.random() < 0.5:
+                ops.append(["get"])
+    left = depth
+    for _ in range(explicit + implicit + 1):       # complete unwind (implicit pushes may not all have happened)
+        ops.append(["pop"])
+        left = max(0, left - 1)
+        k = rng.random()
+        if k < 0.08:
+            ops.append(["get"])
+        elif k < 0.12 and left > 0:
+            ops.append(["set", rng.randrange(left)])
     return ops
 
 
@@ -170,7 +235,12 @@ def run_history(m, ops):
     buf = io.StringIO()
     with contextlib.redirect_stdout(buf):
         idx = index(master_phil=m)
+        # the oracle's own stack of OUTSTANDING pushes (explicit push_state calls and the implicit push of every
+        # update_from_python that took place), kept from what the public calls did and returned -- never read off
+        # idx._states: one entry per push = the working parameters current at that push, the handle push_state returned
+        # (None for an implicit push) and whether the push falls into the class of finding D37
         pushes = []
+        from_format = [False]     # the working parameters were produced by format() (update_from_python), not by a fetch
 
         def values():
             """the working parameters as values (spelling such as quoting is not part of them)"""
@@ -178,6 +248,18 @@ def run_history(m, ops):
                 return _fetch.dump(idx.working_phil.extract())
             except RuntimeError:
                 return ("refused", idx.working_phil.as_str())
+
+        def saved():
+            """the entry for a push that happens NOW.  D37 class (narrow): the working parameters were produced by
+            format() AND re-fetching them against the master -- which is how push_state copies -- changes their values"""
+            now = values()
+            d37 = False
+            if from_format[0]:
+                try:
+                    d37 = not close(_fetch.dump(m.fetch(source=idx.working_phil).extract()), now)
+                except (RuntimeError, freephil.Sorry):
+                    d37 = True
+            return {"values": now, "handle": None, "d37": d37, "step": None}
 
         def observe(got):
             texts.append(idx.working_phil.as_str())
@@ -236,6 +318,7 @@ def run_history(m, ops):
                     except freephil.Sorry:
                         pass
                     else:
+                        from_format[0] = False
                         # the same edit again leaves the working parameters unchanged
                         once = values()
                         try:
@@ -249,27 +332,55 @@ def run_history(m, ops):
                         except (freephil.Sorry, RuntimeError):
                             pass  # an edit with a value the type refuses: extraction reports it
                 elif op[0] == "push":
-                    idx.push_state()
-                    pushes.append(values())
+                    entry = saved()
+                    entry["handle"] = idx.push_state()
+                    entry["step"] = step
+                    pushes.append(entry)
                 elif op[0] == "pop":
                     ok = idx.pop_state()
-                    if ok:
+                    if ok and not pushes:
+                        fails.append((step, "pop_state returned True although no push is outstanding"))
+                    elif not ok and pushes:
+                        # the clause "popping a state restores the working parameters of the matching push" has a
+                        # matching push here: a refusing pop restores nothing
+                        fails.append((step, "pop_state returned %r and restored nothing although %d pushes are outstanding "
+                                      "(the matching push is the one of step %r)" % (ok, len(pushes), pushes[-1]["step"])))
+                        pushes.pop()
+                    elif ok:
                         want = pushes.pop()
-                        if not close(values(), want):
-                            fails.append((step, "pop_state did not restore the working parameters of the matching push"))
+                        from_format[0] = False
+                        if not close(values(), want["values"]):
+                            fails.append((step, "pop_state did not restore the working parameters of the matching push "
+                                          "(step %r, %d pushes below it)" % (want["step"], len(pushes)),
+                                          ["D37"] if want["d37"] else None))
                 elif op[0] == "set":
-                    if op[1] < len(idx._states):
-                        idx.set_state(op[1])
+                    # set_state(handle): the handle is what push_state returned for that outstanding push (an implicit
+                    # push of update_from_python returns none: its position among the outstanding pushes)
+                    if op[1] < len(pushes):
+                        want = pushes[op[1]]
+                        r = idx.set_state(op[1] if want["handle"] is None else want["handle"])
+                        from_format[0] = False
+                        if r is not True:
+                            fails.append((step, "set_state(handle of the push of step %r) returned %r" % (want["step"], r)))
+                        elif not close(values(), want["values"]):
+                            fails.append((step, "set_state(handle of the push of step %r; %d of %d outstanding) loaded other "
+                                          "working parameters than were current at that push"
+                                          % (want["step"], op[1], len(pushes)), ["D37"] if want["d37"] else None))
                 elif op[0] == "from_python":
                     n_before = len(idx._states)
-                    before_values = values()
+                    entry = saved()
+                    entry["step"] = step
+                    will_push = idx.params is not None      # documented protocol: nothing cached -> returns False, no push
                     try:
                         r = idx.update_from_python()
                     except RuntimeError:
+                        if len(idx._states) > n_before:     # refused by format() after the state was saved
+                            pushes.append(entry)
                         observe(None)
                         continue
-                    if len(idx._states) > n_before:
-                        pushes.append(before_values)
+                    if will_push and r is not False:
+                        pushes.append(entry)
+                        from_format[0] = True
                 elif op[0] == "from_python_obj":
                     try:
                         obj = idx.get_python_object(make_copy=True)
@@ -292,15 +403,18 @@ def run_history(m, ops):
                         continue
                     wire[-1] = ["from_python", to_pval(obj)]
                     fmt_tables(obj, fm)
-                    before_values = values()
+                    entry = saved()
+                    entry["step"] = step
                     n_before = len(idx._states)
                     try:
                         idx.update_from_python(obj)
                     except RuntimeError:
+                        if len(idx._states) > n_before:     # refused by format() after the state was saved
+                            pushes.append(entry)
                         observe(None)
                         continue
-                    if len(idx._states) > n_before:
-                        pushes.append(before_values)
+                    pushes.append(entry)                    # update_from_python(obj) always saves the state first
+                    from_format[0] = True
                     # the object that would be handed out next (cache logic of get_python_object, without touching it)
                     # must equal a fresh extraction of the new working parameters
                     try:
@@ -334,18 +448,12 @@ def run_history(m, ops):
 def run(ctx):
     rng = ctx.rng
     n = ctx.scale(600, 10000, 2000)
+    n_deep = ctx.scale(5, 60, 12)
     cases, reqs, impls = [], [], []
     all_pending = []
     types = [t for t in mgen.TYPES if t is not None]
-    for i in range(n):
-        if ctx.time_left() < 30:
-            ctx.notes.append("stopped early on time budget")
-            break
-        tree = mgen.MasterGen(rng, depth=rng.choice([0, 1, 2]), nested_multiples=(i % 4 == 3), disabled=False, types=types,
-                              further=rng.random() < 0.3).tree()
-        mt = mgen.render_master(tree)
-        m = freephil.parse(input_string=mt)
-        ops = gen_history(rng, tree, scope_paths(m))
+
+    def one(mt, m, ops, sample=False):
         kinds = {o[0] for o in ops}
         ctx.case((mt, repr(ops)), nontrivial=("update" in kinds and bool(kinds & {"push", "pop", "set", "from_python"})))
         for o in ops:
@@ -356,17 +464,16 @@ def run(ctx):
             obs, fails, texts, wire, fm_extra = run_history(m, ops)
         except (freephil.Sorry, RuntimeError):
             ctx.count("master_refused_by_index")
-            continue
+            return None
         except BaseException as e:
             ctx.fail({"master": mt, "ops": ops}, "index construction raised %s: %s" % (type(e).__name__, str(e)[:100]))
-            continue
+            return None
         case = {"master": mt, "ops": ops}
         pending = []
-        for step, what in fails[:1]:
-            cls = None
-            if "pop_state did not restore" in what and any(o[0].startswith("from_python") for o in ops[:step]):
-                cls = ["D37"]
-            pending.append((dict(case, step=step), what, cls))
+        for f in fails[:1]:
+            # finding classes are assigned where the failure is met (run_history): D37 only for a pop / set_state whose
+            # matching push saved working parameters that format() produced and that a re-fetch against the master changes
+            pending.append((dict(case, step=f[0]), f[1], f[2] if len(f) > 2 else None))
         if len(obs) == len([o for o in ops if o[0] != "copy"]) + 1:      # (copy is not an operation of the abstract machine)
             ev, fm = mgen.tables([mt] + [o[1] for o in ops if o[0] == "update"] + texts)
             reqs.append(["index", enc(mt), wire, ev, fm + fm_extra])
@@ -375,8 +482,34 @@ def run(ctx):
             all_pending.append((len(cases) - 1, pending))
         else:
             all_pending.append((None, pending))
-        if i % 40 == 0:
+        if sample:
             ctx.sample({"master": mt, "ops": ops})
+        return obs
+
+    # deep histories first (a few suffice; each is some hundred operations on a small master)
+    for i in range(n_deep):
+        if ctx.time_left() < 30:
+            ctx.notes.append("stopped early on time budget")
+            break
+        tree = mgen.MasterGen(rng, depth=rng.choice([0, 0, 1]), nested_multiples=False, disabled=False, types=types,
+                              further=rng.random() < 0.3).tree()
+        mt = mgen.render_master(tree)
+        m = freephil.parse(input_string=mt)
+        ops = gen_deep_history(rng, tree, scope_paths(m))
+        obs = one(mt, m, ops, sample=(i == 0))
+        ctx.count("deep_histories")
+        if obs:
+            ctx.counts["deep_max_stack_depth"] = max(ctx.counts.get("deep_max_stack_depth", 0), max(o[3] for o in obs))
+    for i in range(n):
+        if ctx.time_left() < 30:
+            ctx.notes.append("stopped early on time budget")
+            break
+        tree = mgen.MasterGen(rng, depth=rng.choice([0, 1, 2]), nested_multiples=(i % 4 == 3), disabled=False, types=types,
+                              further=rng.random() < 0.3).tree()
+        mt = mgen.render_master(tree)
+        m = freephil.parse(input_string=mt)
+        ops = gen_history(rng, tree, scope_paths(m))
+        one(mt, m, ops, sample=(i % 40 == 0))
     disagreeing = set()
     if reqs and ctx.mode != "impl-only":
         n0 = len(ctx.disagreements)
@@ -393,6 +526,48 @@ def run(ctx):
 def project(obs):
     """floats in handed-out objects are compared to 10 digits elsewhere; here compare text and flags"""
     return [[o[0], o[1], o[2], o[3], o[4] is not None] + o[5:] if isinstance(o, list) else o for o in obs]
+
+
+def shrink(f, budget=20.0):
+    """best effort: a shorter history of the same master with the same first failure (same clause, same finding class);
+    greedy chunk removal after cutting everything behind the failing step"""
+    import re
+    import time
+    case = f["case"]
+    if "ops" not in case:
+        return f
+    m = freephil.parse(input_string=case["master"])
+    stop = time.time() + budget
+
+    def kind(what):
+        return re.sub(r"[0-9]+|\(.*", "", what)[:60]
+
+    def first(ops):
+        try:
+            fails = run_history(m, ops)[1]
+        except BaseException:
+            return None
+        if fails and kind(fails[0][1]) == kind(f["what"]) and (fails[0][2] if len(fails[0]) > 2 else None) == f.get("finding"):
+            return fails[0]
+        return None
+    ops = list(case["ops"])
+    best = first(ops)
+    if best is None:
+        return f
+    ops = ops[:best[0] + 1]
+    size = max(1, len(ops) // 2)
+    while size >= 1 and time.time() < stop:
+        i = 0
+        while i < len(ops) and time.time() < stop:
+            cand = ops[:i] + ops[i + size:]
+            got = first(cand) if cand else None
+            if got is not None:
+                ops, best = cand[:got[0] + 1], got
+            else:
+                i += size
+        size //= 2
+    return dict(f, case={"master": case["master"], "ops": ops, "step": best[0]}, what=best[1],
+                shrunk_from=len(case["ops"]))
 
 
 def finding_still_fails(f):
